@@ -1,8 +1,19 @@
+/-
+The tie between the theorems and the code: `codeCfg` is regenerated from /repo on every run
+(`translate/c11_cfg.py`); this file checks that it is the configuration the theorems are about.
+If the code regresses (visited keyed by single identities again, a missing arm, an order-dependent
+hash …) `code_cfg_sound` stops checking.
+-/
 import SteelVerif.C11.Props
 import SteelVerif.C11.GenCfg
 namespace SteelVerif.C11
 
 /-- The configuration extracted from /repo is the one for which the property is proved. -/
 theorem code_cfg_sound : codeCfg.sound = true := by decide
+
+/-- `equal?` as the code currently implements it is structural. -/
+theorem eq_structural_code : EqStructural codeCfg := eq_structural codeCfg code_cfg_sound
+
+theorem hash_respects_eq_code : HashRespectsEq codeCfg := hash_respects_eq codeCfg code_cfg_sound
 
 end SteelVerif.C11
